@@ -32,7 +32,7 @@ package loader
 
 // C08: "exclusive flags have their bound"; C02: exclusive:false is inert
 //@ func (schemaCompiler).exclusiveMinimumConstraint(node)
-//@   props C08 C02
+//@   props C08 C02 C04
 //@   requires isNode(node) && consReady(node) && consKinds(node)
 //@   maypanic
 //@   modifies consOf(node).data[*], consOf(node).order, consOf(node).order[*], minOf(node).exclusive
@@ -44,7 +44,7 @@ package loader
 //@   ensures normal ==> (forall q constraint.Type :: q != constraint.ExclusiveMinimumConstraintType ==> hasRule(node, q) == old(hasRule(node, q)) && consOf(node).data[q] == old(consOf(node).data[q]))
 
 //@ func (schemaCompiler).exclusiveMaximumConstraint(node)
-//@   props C08 C02
+//@   props C08 C02 C04
 //@   requires isNode(node) && consReady(node) && consKinds(node)
 //@   maypanic
 //@   modifies consOf(node).data[*], consOf(node).order, consOf(node).order[*], maxOf(node).exclusive
@@ -214,3 +214,25 @@ package loader
 //@   modifies *
 //@   ensures panics ==> typeis(pv, errors.DocumentError)
 //@   loop 0 invariant rangeindex >= 0 - 1
+
+// ---- phases called from Schema.load/compile: arbitrary effect (nothing assumed) ----
+//@ func CompileBasic(rootSchema, areKeysOptionalByDefault)
+//@   props C11
+//@   trusted "phase boundary: arbitrary effect, may panic (nothing is assumed about it)"
+//@   maypanic
+//@   modifies *
+//@ func CompileAllOf(rootSchema)
+//@   props C11
+//@   trusted "phase boundary: arbitrary effect, may panic (nothing is assumed about it)"
+//@   maypanic
+//@   modifies *
+//@ func AddUnnamedTypes(rootSchema)
+//@   props C11
+//@   trusted "phase boundary: arbitrary effect, may panic (nothing is assumed about it)"
+//@   maypanic
+//@   modifies *
+//@ func LoadSchemaWithoutCompile(scan, rootSchema, rules)
+//@   props C11
+//@   trusted "phase boundary: arbitrary effect, may panic (nothing is assumed about it)"
+//@   maypanic
+//@   modifies *
